@@ -89,6 +89,16 @@ Theorem call_styles_equal : forall extra t args kw args' kw',
 Proof. exact call_styles_equal_l. Qed.
 Print Assumptions call_styles_equal.
 
+(* the request body Document.bodycontent builds from those callbacks carries
+   exactly the values the call bound, in parameter order *)
+Theorem request_carries_bound_values : forall extra t args kw,
+  wf t = true -> kw_distinct kw = true ->
+  is_ok (fst (parse_args extra (flatten [] t) args kw)) = true ->
+  filter valued_item (body_of (flatten [] t) (snd (parse_args extra (flatten [] t) args kw))) =
+  filter valued_item (bind (names t) args kw).
+Proof. exact request_carries_bound_values_l. Qed.
+Print Assumptions request_carries_bound_values.
+
 (* rpc bindings (RPC.bodycontent) do not run the parser.  The full statement
    "an rpc call is rejected iff must_reject_flat" is FALSE of the faithful model
    (finding C08:rpc-no-argument-check); what holds: a call that needs no
